@@ -65,7 +65,8 @@ class RecursiveSigner:
         context: str = None,
     ):
         """Initialize the RecursiveSigner."""
-        self.envelope = envelope
+        # cbor2 >= 6 decodes the content of a tag as immutable containers - work on a mutable copy
+        self.envelope = cbor2.CBORTag(envelope.tag, dict(envelope.value))
         self.envelope_name = envelope_name
         self.sign_script = sign_script
         self.kms_script = kms_script
@@ -265,7 +266,8 @@ def load_envelope(input_file: Path) -> cbor2.CBORTag:
     """Load suit envelope."""
     with open(input_file, "rb") as fh:
         envelope = cbor2.load(fh)
-    return envelope
+    # cbor2 >= 6 decodes the content of a tag as immutable containers - hand out a mutable copy
+    return cbor2.CBORTag(envelope.tag, dict(envelope.value))
 
 
 def save_envelope(output_file: Path, envelope) -> None:
